@@ -131,7 +131,7 @@ def run_line_statements(ctx, res, jinja2):
     rng = ctx.rng("line")
     block_env = jinja2.Environment(trim_blocks=True, lstrip_blocks=True, keep_trailing_newline=True)
     evaluations, distinct = 0, set()
-    known = 0
+    known = cr_sources = 0
     for prefix, cprefix in (("#", "##"), ("%", "%%"), ("@@", "//")):
         line_env = jinja2.Environment(trim_blocks=True, lstrip_blocks=True, keep_trailing_newline=True,
                                       line_statement_prefix=prefix, line_comment_prefix=cprefix)
@@ -164,12 +164,16 @@ def run_line_statements(ctx, res, jinja2):
             for op in reversed(stack):
                 fixed.append(("tag", "", "endif" if op == "if true" else "endfor"))
             # a whole-line tag must not be followed by a blank line: every line here is non-blank by construction
-            blocks = "".join((l[1] + "\n") if l[0] == "text" else (l[1] + "{% " + l[2] + " %}\n") if l[0] == "tag"
-                             else (l[1] + "{# " + l[2] + " #}\n") for l in fixed)
-            blocks_plus = "".join((l[1] + "\n") if l[0] == "text" else (l[1] + "{% " + l[2] + " %}\n") if l[0] == "tag"
-                                  else (l[1] + "{# " + l[2] + " +#}\n") for l in fixed)
-            linesrc = "".join((l[1] + "\n") if l[0] == "text" else (l[1] + prefix + " " + l[2] + "\n") if l[0] == "tag"
-                              else (l[1] + cprefix + " " + l[2] + "\n") for l in fixed)
+            # line breaks: "\n" for the whole source, CRLF, lone CR, or mixed (all three are line breaks of a template)
+            nl = rng.choice(["\n", "\n", "\n", "\r\n", "\r", None])
+            ends = [nl if nl is not None else rng.choice(["\n", "\r\n", "\r"]) for _ in fixed]
+            blocks = "".join((l[1] + e) if l[0] == "text" else (l[1] + "{% " + l[2] + " %}" + e) if l[0] == "tag"
+                             else (l[1] + "{# " + l[2] + " #}" + e) for l, e in zip(fixed, ends))
+            blocks_plus = "".join((l[1] + e) if l[0] == "text" else (l[1] + "{% " + l[2] + " %}" + e) if l[0] == "tag"
+                                  else (l[1] + "{# " + l[2] + " +#}" + e) for l, e in zip(fixed, ends))
+            linesrc = "".join((l[1] + e) if l[0] == "text" else (l[1] + prefix + " " + l[2] + e) if l[0] == "tag"
+                              else (l[1] + cprefix + " " + l[2] + e) for l, e in zip(fixed, ends))
+            cr_sources += ("\r" in linesrc)
             ref = render(block_env, jinja2, blocks)
             got = render(line_env, jinja2, linesrc)
             evaluations += 1
@@ -186,7 +190,8 @@ def run_line_statements(ctx, res, jinja2):
                     res.violate("C13:line-statement:" + ("comment" if has_comment else "tags"),
                                 f"line-statement form {linesrc!r} (prefix {prefix!r}) renders {got!r}; block form {blocks!r} renders {ref!r}",
                                 {"line_source": linesrc, "block_source": blocks, "prefix": prefix})
-    return {"evaluations": evaluations, "distinct": len(distinct), "known_finding_hits": known}
+    return {"evaluations": evaluations, "distinct": len(distinct), "known_finding_hits": known,
+            "sources_with_crlf_or_cr_line_breaks": cr_sources}
 
 
 def run_env_ways(ctx, res, jinja2):
@@ -301,7 +306,8 @@ def run_env_ways(ctx, res, jinja2):
                  "(both/one/removed), delimiter sets, mixtures, none) an overlay of the fresh and of the already used root "
                  "(Environment(...) or Template('',...).environment), sibling overlays of one used parent, overlay chains of "
                  "depth 3 used at each level, every parent used again after its overlays, plus random histories; at each use "
-                 "2 fixed skeletons sensitive to all four whitespace options + random skeletons + line-statement/comment "
+                 "2 fixed skeletons sensitive to all four whitespace options (LF, CRLF and lone-CR versions) + random skeletons "
+                 "(texts/raw bodies with all three line breaks, FF, VT) + line-statement/comment (LF/CRLF/CR/mixed line ends) "
                  "sources are rendered and compared with a fresh Environment(**options in effect), with the Lean reference "
                  "trim-env (documented rules incl. trailing newline and newline sequence), the lexer model's tokens, and "
                  "(trim+lstrip) with the block-tag form; a use is non-trivial when (options, way, source) is new; "
